@@ -28,10 +28,11 @@ impl Plugin for ClientSyncPlugin {
         app.init_resource::<ClientPresendInitialSync>();
         app.add_systems(
             Update,
+            // a new transport starts a new connection whatever the previous state was: a transport that is
+            // removed and inserted again between two frames never passes through Disconnected
             set_client_to_connecting
                 .run_if(resource_exists::<RenetClient>)
-                .run_if(resource_added::<NetcodeClientTransport>)
-                .run_if(in_state(ClientState::Disconnected)),
+                .run_if(resource_added::<NetcodeClientTransport>),
         );
         app.add_systems(
             Update,
